@@ -1,6 +1,7 @@
 (* GENERATED on every run by harness/props/c12_gen.py from the Python source - do not edit.
-   engine/control.py sha256 40a50eb3954ca617, engine/__init__.py sha256 c6771931763c4beb *)
-From Coq Require Import Arith Bool.
+   engine/control.py sha256 40a50eb3954ca617, engine/__init__.py sha256 c6771931763c4beb,
+   engine/context.py sha256 0d32da1548b35cc6 *)
+From Coq Require Import Arith Bool List.
 From Verif Require Import C11.Model_C11.
 
 Definition gen_count_failure (max_failures : option nat) (_failures_counter : nat) (has_reached_the_failure_limit : bool) :=
@@ -24,3 +25,19 @@ Definition gen_srank (s : status) : nat :=
   | INTERRUPTED => 3
   | SKIP => 4
   end.
+
+(* Python dict as an association list, newest binding first: d[k] = v is a cons, d.get(k, default) the first match *)
+Fixpoint gen_assoc_get {K V : Type} (eqb : K -> K -> bool) (k : K) (d : list (K * V)) : option V :=
+  match d with
+  | nil => None
+  | cons (k', v) r => if eqb k k' then Some v else gen_assoc_get eqb k r
+  end.
+
+Definition gen_cache_outcome {K V : Type} (d : list (K * V)) (k : K) (v : V) : list (K * V) :=
+  let d := (if (Nat.leb 2048 (length d)) then let d := nil in
+  d else d) in
+  let d := cons (k, v) d in
+  d.
+
+Definition gen_get_cached_outcome {K V : Type} (eqb : K -> K -> bool) (d : list (K * V)) (k : K) : option V :=
+  gen_assoc_get eqb k d.
